@@ -382,35 +382,92 @@ def rule_collect(prog, rep):
         m = re.search(r'execution::eval_if_arg\(&\*%s, &\*const:"(\w+)", &arg1\.variable_values\)' % SEL, s0)
         if m:
             tab[m.group(1)] = s1
-    ok = tab == {"skip": "const:false", "include": "const:true"} and len(evs) == 2
+    defaults_by_shape = tab == {"skip": "const:false", "include": "const:true"} and len(evs) == 2
+
+    # CollectFields: a selection is left out iff @skip is true or @include is false.  The
+    # condition is read as a decision table: the two eval_if_arg results (None | Some(false) |
+    # Some(true)) are fixed in turn and the loop body is walked with them (speceval); a block is
+    # "guarded" when it is reached exactly for the rows in which the selection is included.  The
+    # spelling (unwrap_or defaults, `== Some(true)`, a match, a helper that was inlined) does not
+    # matter.
+    from ..speceval import Spec
+    ev_block = {}
+    for c in evs:
+        m = re.search(r'const:"(\w+)"', fn.sym(c.args[1]))
+        if m and re.search(SEL, fn.sym(c.args[0])):
+            ev_block.setdefault(m.group(1), []).append(c.block)
+    nxt_calls = [x for x in fn.live_calls() if x.name.endswith("Iterator::next") and "arg3" in fn.sym(x.args[0])]
+    body_start = None
+    if len(nxt_calls) == 1:
+        from ..flow import branch_on_enum_call
+        try:
+            br = branch_on_enum_call(fn, nxt_calls[0])
+            body_start = br[0]["edges"].get("Some") if br else None
+        except Exception:
+            body_start = None
+    _reach_cache = {}
+
+    def reach_table(b):
+        """{(skip, include): reached?} over None/0/1 x None/0/1, or None when not decidable"""
+        if b in _reach_cache:
+            return _reach_cache[b]
+        tab = None
+        if body_start is not None and len(ev_block.get("skip", [])) == 1 and len(ev_block.get("include", [])) == 1:
+            tab = {}
+            for sk in (None, 0, 1):
+                for inc in (None, 0, 1):
+                    cv = {ev_block["skip"][0]: ("opt", sk), ev_block["include"][0]: ("opt", inc)}
+                    if sk is not None or inc is not None:
+                        # a row in which a directive has a value is a row in which the
+                        # selection's directive list is not empty (fast paths on is_empty())
+                        for x in fn.live_calls():
+                            if re.search(r"::is_empty$", x.name) and re.search(r"Selection::directives\(&\*%s" % SEL, fn.sym(x.args[0])):
+                                cv[x.block] = 0
+                    sp = Spec(fn, stop_blocks={b, nxt_calls[0].block}, max_paths=4000, call_values=cv)
+                    try:
+                        paths = sp.run(body_start)
+                    except Undecided:
+                        tab = None
+                        break
+                    tab[(sk, inc)] = any(end == b for _, end in paths)
+                if tab is None:
+                    break
+        _reach_cache[b] = tab
+        return tab
+
+    def guard_ok(b):
+        """block b runs only when skip is not true and include is not false - and for all of
+        those rows the decision does not exclude it"""
+        tab = reach_table(b)
+        if tab is None:
+            fs = facts_at(fn, b)
+            got = {}
+            for f in fs:
+                if f[0] == "callbool" and f[1].endswith("Option::<T>::unwrap_or"):
+                    s0 = fn.sym(f[4].args[0])
+                    m = re.search(r'const:"(\w+)"', s0)
+                    if m:
+                        got[m.group(1)] = f[3]
+            return got.get("skip") is False and got.get("include") is True
+        return all((not reached) or (sk != 1 and inc != 0) for (sk, inc), reached in tab.items()) and \
+            all(reached for (sk, inc), reached in tab.items() if sk != 1 and inc != 0)
+
+    # Field arm
+    pushes = [c for c in fn.live_calls() if c.name.endswith("Vec::<T, A>::push")]
+    # an absent @skip counts as false and an absent @include as true: the rows with None of the
+    # decision table (read on the block that collects a field); the unwrap_or spelling is only the
+    # fallback when the table cannot be built
+    t0 = reach_table(pushes[0].block) if len(pushes) == 1 else None
+    if t0 is not None:
+        ok = len(evs) == 2 and t0[(None, None)] and t0[(None, 1)] and t0[(0, None)] and not t0[(None, 0)] and not t0[(1, None)]
+        tab = {"%s,%s" % k: v for k, v in t0.items()}
+    else:
+        ok = defaults_by_shape
     rep.obligation(ok)
     if ok:
         rep.instance("C26.COLLECT", "@skip defaults to false, @include defaults to true; both read with eval_if_arg(selection, name, variable_values)")
     else:
         rep.finding("C26.COLLECT", fn.name, "defaults", "skip/include evaluation is %s" % tab, fn.loc())
-
-    def included(b):
-        fs = _strip(facts_at(fn, b))
-        sk = [f for f in fs if f[0] == "callbool" and f[1].endswith("unwrap_or") and f[2] and f[2][0] and 'const:"skip"' in fn_arg(f, 0)]
-        return fs
-
-    def fn_arg(f, i):
-        return f[2][i] or ""
-
-    def guard_ok(b):
-        """block b runs only when skip is false and include is true"""
-        fs = facts_at(fn, b)
-        got = {}
-        for f in fs:
-            if f[0] == "callbool" and f[1].endswith("Option::<T>::unwrap_or"):
-                s0 = fn.sym(f[4].args[0])
-                m = re.search(r'const:"(\w+)"', s0)
-                if m:
-                    got[m.group(1)] = f[3]
-        return got.get("skip") is False and got.get("include") is True
-
-    # Field arm
-    pushes = [c for c in fn.live_calls() if c.name.endswith("Vec::<T, A>::push")]
     okf = len(pushes) == 1
     if okf:
         p = pushes[0]
